@@ -214,7 +214,7 @@ func runC16(c *Check) {
 	if swo == nil {
 		c.Unk("C16-R3", "client.SubmitWithOptions", "", "", "anchor lost")
 	} else {
-		g := BuildECFG(dp, swo, ExpandOpts{MaxDepth: 0})
+		g := BuildECFG(dp, swo, ExpandOpts{MaxDepth: 1})
 		c.NoteGraph(g)
 		fn := fnName(swo)
 		rpc := g.Select(func(n *Node) bool {
@@ -279,16 +279,17 @@ func runC16(c *Check) {
 			} else {
 				// the counter incremented on the skip path
 				var counter *ssa.BinOp
-				for _, n := range g.Reachable(skipEdges, nil) {
-					_ = n
-				}
+				var counterCell *ssa.Alloc // the counter lives in a variable captured by a closure
 				for n := range g.Reachable(skipEdges, nodeSet(apps)) {
 					if b, ok := n.In.(*ssa.BinOp); ok && b.Op == token.ADD {
 						if k, ok := b.Y.(*ssa.Const); ok && k.Int64() == 1 {
-							if _, isPhi := b.X.(*ssa.Phi); isPhi && counter == nil {
+							_, isPhi := b.X.(*ssa.Phi)
+							cell := cellOfLoad(b.X, n.Ctx)
+							if (isPhi || cell != nil) && counter == nil {
 								// the first +1 after the skip edge in the same block
 								if n.In.Block() == skipEdges[0].In.(*ssa.If).Block().Succs[0] {
 									counter = b
+									counterCell = cell
 								}
 							}
 						}
@@ -297,7 +298,7 @@ func runC16(c *Check) {
 				if counter == nil {
 					c.Bad("C16-R3", "SubmitWithOptions ⟂ skipped-blob-forces-error", fn, dp.InstrPos(skipEdges[0].In), "an over-size blob is skipped without being recorded: the caller is told blobs were submitted that were not", nil)
 				} else {
-					cphi := counter.X.(*ssa.Phi)
+					cphi, _ := counter.X.(*ssa.Phi)
 					notSet := g.Select(EdgeWhere(func(t *Term, pol bool, n *Node) bool {
 						ifi := n.In.(*ssa.If)
 						b, ok := ifi.Cond.(*ssa.BinOp)
@@ -306,6 +307,9 @@ func runC16(c *Check) {
 						}
 						// (counter > 0) false edge / (counter == 0) true edge
 						isCounter := func(v ssa.Value) bool {
+							if counterCell != nil {
+								return cellOfLoad(v, n.Ctx) == counterCell
+							}
 							if v == ssa.Value(cphi) || v == ssa.Value(counter) {
 								return true
 							}
@@ -592,4 +596,31 @@ func calleeUsesIdentity(p *Prog, fn *ssa.Function) bool {
 		}
 	}
 	return false
+}
+
+// cellOfLoad: v is a load of a local variable kept in memory (directly or through the free
+// variable of a closure bound to it); returns that variable's cell.
+func cellOfLoad(v ssa.Value, ctx *Ctx) *ssa.Alloc {
+	u, ok := v.(*ssa.UnOp)
+	if !ok || u.Op != token.MUL {
+		return nil
+	}
+	switch a := u.X.(type) {
+	case *ssa.Alloc:
+		return a
+	case *ssa.FreeVar:
+		for c := ctx; c != nil; c = c.ClosureCtx {
+			if c.Closure == nil || c.Fn != a.Parent() {
+				continue
+			}
+			for i, fv := range a.Parent().FreeVars {
+				if fv == a && i < len(c.Closure.Bindings) {
+					if al, ok := c.Closure.Bindings[i].(*ssa.Alloc); ok {
+						return al
+					}
+				}
+			}
+		}
+	}
+	return nil
 }
